@@ -516,8 +516,8 @@ func (r *run) conflictAttack(V *Node, prev *block.Block) {
 		return b, r.fail == nil
 	}
 	var victim *transaction.Transaction
-	variant := r.tape.Choose(3)
-	if variant == 2 && (mtb > 12 || inc < 3) {
+	variant := r.tape.Choose(4)
+	if variant >= 2 && (mtb > 12 || inc < 3) {
 		variant = r.tape.Choose(2)
 	}
 	switch variant {
@@ -555,11 +555,24 @@ func (r *run) conflictAttack(V *Node, prev *block.Block) {
 			// not demanded by C06 itself: what counts is whether the block carrying it is refused below
 			r.out.Probes["conflict_attack_victim_still_pooled"]++
 		}
-	case 2:
+	case 2, 3:
 		// two namers at different heights; the block arrives when the older one is just untraceable
 		i1 := h0 + 1
 		victim = mk([]neotest.SingleSigner{a}, 7, i1+mtb+1, nil)
-		b, ok := step([]*transaction.Transaction{mk([]neotest.SingleSigner{other}, 3, h0+min(inc, 3), victim)})
+		older, newer := []neotest.SingleSigner{other}, []neotest.SingleSigner{a}
+		if variant == 3 {
+			// the victim has two signers; the older (untraceable) namer is signed by one of them, the newer one by the
+			// other: whichever signer's record is looked at first, the traceable conflict counts
+			vs := []neotest.SingleSigner{a, other}
+			if r.tape.Chance(1, 2) {
+				older, newer = []neotest.SingleSigner{a}, []neotest.SingleSigner{other}
+			} else {
+				older, newer = []neotest.SingleSigner{other}, []neotest.SingleSigner{a}
+			}
+			victim = mk(vs, 7, i1+mtb+1, nil)
+			r.out.Probes["conflict_attack_two_namers_two_signers"]++
+		}
+		b, ok := step([]*transaction.Transaction{mk(older, 3, h0+min(inc, 3), victim)})
 		if !ok {
 			return
 		}
@@ -572,7 +585,7 @@ func (r *run) conflictAttack(V *Node, prev *block.Block) {
 			prev = b
 		}
 		hb := bc.BlockHeight()
-		if b, ok = step([]*transaction.Transaction{mk([]neotest.SingleSigner{a}, 4, hb+min(inc, 3), victim)}); !ok {
+		if b, ok = step([]*transaction.Transaction{mk(newer, 4, hb+min(inc, 3), victim)}); !ok {
 			return
 		}
 		prev = b
